@@ -128,7 +128,7 @@ def filtDisStart : List Act :=
 
 def filtDisStop : List Act :=
   [.master (.plain Filtration.m_halt) (fun o => o.2.contains (.emit 6) && !o.2.contains (.ask true [(3, 0)] [])),
-   .drain, .deliver (fun s => s.leaf == Disinfection.leaf_halt)]
+   .drain, .serve (fun s => s.leaf == Disinfection.leaf_halt)]
 
 theorem filtDis_demo :
     ((run filtDis filtDisStart (cinit filtDis)).bind fun g1 =>
@@ -226,7 +226,7 @@ def filtSwimStart : List Act :=
 
 def filtSwimStop : List Act :=
   [.master (.plain Filtration.m_halt) (fun o => o.2.contains (.emit 7) && !o.2.contains (.ask true [(4, 0)] [])),
-   .drain, .deliver (fun s => s.leaf == Swim.leaf_halt)]
+   .drain, .serve (fun s => s.leaf == Swim.leaf_halt)]
 
 theorem filtSwim_demo :
     ((run filtSwim (filtSwimStart.take 2) (cinit filtSwim)).bind fun g0 =>
@@ -346,7 +346,7 @@ def disPwmStart : List Act :=
    .deliver (fun s => s.v PWM.v_dev_pump == 1)]
 
 def disPwmStop : List Act :=
-  [.master (.plain Disinfection.m_halt) (fun o => o.2.contains (.emit 59)), .drain, .deliver (fun _ => true)]
+  [.master (.plain Disinfection.m_halt) (fun o => o.2.contains (.emit 59)), .drain, .serve (fun _ => true)]
 
 theorem disPwm_demo :
     ((run disPwm disPwmStart (cinit disPwm)).bind fun g1 =>
